@@ -22,6 +22,18 @@ fn main() {
         std::process::exit(2);
     }
     let prop_arg = args[1].to_uppercase();
+    if prop_arg == "SELFTEST" {
+        match engine::crypto::self_test() {
+            Ok(()) => {
+                println!("crypto self-test ok");
+                std::process::exit(0)
+            }
+            Err(e) => {
+                println!("crypto self-test FAILED: {e}");
+                std::process::exit(2)
+            }
+        }
+    }
     // child-process modes (used by C06 / C17) are dispatched before anything else
     if let Some(code) = props::child_mode(&args) {
         std::process::exit(code);
